@@ -427,7 +427,59 @@ def unit_bounded_after_delete(U):
                      "3 forms of delete x 2 strands, one transcript with 3 exons", cases, fails, distinct=cases)
 
 
-UNITS = [("bounded.after_delete", unit_bounded_after_delete), ("body", unit_body), ("introns", unit_introns), ("splice", unit_splice), ("bounded.numeric", unit_bounded_numeric)]
+def unit_bounded_switch(U):
+    """Bounded: the same gaps under the module switch constants.always_return_list = False (single values are VIEWED as
+    strings there; what is computed must not change): neighbours sharing one single ID, several IDs, introns and splice sites;
+    and update_attributes values that are not lists come back as they were given (default setting)."""
+    import gffutils
+    from gffutils import constants as K
+    fails, cases = [], 0
+    mk = lambda i, a, b, ft="CDS", **att: F.Feature(seqid="c", source="s", featuretype=ft, start=a, end=b, strand="+", attributes=dict({"ID": [i]}, **{k: list(v) for k, v in att.items()}))
+    old = K.always_return_list
+    try:
+        for switch in (True, False):
+          try:
+              K.always_return_list = switch
+              # (1) a multi-part CDS: every segment carries the same single ID
+              db = gffutils.create_db([mk("t", 1, 100, ft="mRNA"), mk("cds1", 1, 10, Parent=["t"]), mk("cds1", 21, 30, Parent=["t"]), mk("cds1", 41, 50, Parent=["t"])], ":memory:", merge_strategy="create_unique")
+              segs = [F.Feature(seqid="c", source="s", featuretype="CDS", start=a, end=b, strand="+", attributes={"ID": ["cds1"]}) for a, b in ((1, 10), (21, 30), (41, 50))]
+              got = [(g.start, g.end, list(g.attributes["ID"]) if isinstance(g.attributes["ID"], list) else [g.attributes["ID"]]) for g in db.interfeatures(segs)]
+              cases += 1
+              if got != [(11, 20, ["cds1"]), (31, 40, ["cds1"])]:
+                  fails.append({"case": {"always_return_list": switch, "features": "three CDS segments, all ID=cds1"}, "expected": [(11, 20, ["cds1"]), (31, 40, ["cds1"])], "observed": got})
+              # (2) different IDs are joined by '-'
+              two = [F.Feature(seqid="c", source="s", featuretype="exon", start=a, end=b, strand="+", attributes={"ID": [i]}) for i, a, b in (("e1", 1, 10), ("e2", 21, 30))]
+              got = [g.attributes["ID"] for g in db.interfeatures(two)]
+              cases += 1
+              if [x if isinstance(x, list) else [x] for x in got] != [["e1-e2"]]:
+                  fails.append({"case": {"always_return_list": switch, "features": "exons e1, e2"}, "expected": [["e1-e2"]], "observed": got})
+              # (3) introns and their splice sites from a stored transcript
+              db2 = gffutils.create_db([mk("g", 1, 100, ft="gene"), mk("t", 1, 100, ft="mRNA", Parent=["g"]), mk("x1", 1, 10, ft="exon", Parent=["t"]), mk("x2", 21, 30, ft="exon", Parent=["t"])], ":memory:")
+              introns = list(db2.create_introns())
+              sites = list(db2.create_splice_sites())
+              obs = [[(i.start, i.end) for i in introns], sorted((s.start, s.end, s.featuretype) for s in sites)]
+              exp = [[(11, 20)], [(11, 12, "five_prime_cis_splice_site"), (19, 20, "three_prime_cis_splice_site")]]
+              ids = [x if isinstance(x, str) else x[0] for x in (s.attributes["ID"] for s in sites)]
+              cases += 1
+              if obs != exp or len(set(ids)) != 2 or any(len(i) < 8 for i in ids):
+                  fails.append({"case": {"always_return_list": switch, "features": "gene, mRNA, exons 1-10 and 21-30"}, "expected": exp + ["two distinct splice site ids built from the intron's full id"], "observed": obs + [ids]})
+          except Exception as e:
+            cases += 1
+            fails.append({"case": {"always_return_list": switch}, "expected": "no exception", "observed": repr(e)})
+        K.always_return_list = old
+        # (4) update_attributes values are taken as given
+        for upd in ({"Note": "derived"}, {"Note": ["derived"]}, {"Note": ("a", "b")}):
+            g = list(db.interfeatures(two, update_attributes=dict(upd)))[0]
+            cases += 1
+            if g.attributes["Note"] != upd["Note"]:
+                fails.append({"case": {"update_attributes": upd}, "expected": upd["Note"], "observed": g.attributes["Note"]})
+    finally:
+        K.always_return_list = old
+    U.bounded_result("C15.bounded.switch", "gap features, their joined IDs, introns and splice sites are the same with constants.always_return_list False; update_attributes values are kept as given",
+                     "3 feature sets x both settings of the switch; 3 update_attributes value shapes (str, list, tuple)", cases, fails)
+
+
+UNITS = [("bounded.switch", unit_bounded_switch), ("bounded.after_delete", unit_bounded_after_delete), ("body", unit_body), ("introns", unit_introns), ("splice", unit_splice), ("bounded.numeric", unit_bounded_numeric)]
 try:
     from standins import C15 as _S
     UNITS = UNITS + list(_S.UNITS)
